@@ -48,7 +48,12 @@ async def work2(*args, **kwargs):
 
 async def slow(*args, **kwargs):
     LOG.append((WHO.get(), "slow", repr(args), repr(sorted(kwargs.items()))))
-    await asyncio.sleep(3600)
+    try:
+        await asyncio.sleep(3600)
+    except asyncio.CancelledError:
+        # how many cancellation requests the task was given (cancel 3 3 asks twice)
+        LOG.append((WHO.get(), "slow-cancelled", repr(asyncio.current_task().cancelling()), ""))
+        raise
 
 
 async def boom(*args, **kwargs):
@@ -304,6 +309,20 @@ def make_subclasses():
         @property
         def undocumented(self) -> int:
             return 3
+
+        @property
+        def limit(self) -> int:
+            """A settable property whose setter parameter is not called `value`."""
+            return getattr(self, "_limit", 10)
+
+        @limit.setter
+        def limit(self, new_limit: int) -> None:
+            """Sets the limit."""
+            self._limit = new_limit
+
+        def tagged(self, from_: int, type_: str = "t", *, class_: str = "c") -> str:
+            """Parameters with a trailing underscore (PEP 8 names for keywords)."""
+            return f"tagged {from_!r} {type_!r} {class_!r}"
 
     import ctrlsubs
     return SubA, SubB, SubC, SubD, ctrlsubs.make(TaskPool)
